@@ -1,9 +1,9 @@
 package types
 
-// C18, type-specific initialisation of a Tendermint client: whatever the client store of the chain name already
-// holds (it is re-used by ToggleClient, so it may hold the metadata of an earlier client), a successful Initialize
-// records the installation block time as processed time of the installed height - the instant the delay period of
-// proofs at that height is counted from - and its iteration key.
+// C18, type-specific initialisation of a Tendermint client on the empty client store its callers guarantee: a successful
+// Initialize records the installation block time as processed time of the installed height - the instant the delay
+// period of proofs at that height is counted from - and its iteration key. (The toggle path with left-overs of an
+// earlier client is VerifC18ToggleBackToTendermint, through the real keeper.)
 
 import (
 	"time"
@@ -14,7 +14,7 @@ import (
 
 func VerifC18InitTendermint() {
 	rt.Opt("structured-keys")
-	ctx := rt.Ctx() // arbitrary pre-state of the store
+	ctx := rt.EmptyCtx() // Initialize runs on the empty client store of an unused (create) or cleared (toggle) chain name
 	store := ctx.KVStore(rt.StoreKey("xibc"))
 	h := clienttypes.Height{RevisionNumber: rt.U64("revision"), RevisionHeight: rt.U64("height")}
 	cs := ClientState{ChainId: "chain-a-1", TrustLevel: Fraction{Numerator: 1, Denominator: 3}, TrustingPeriod: time.Hour, UnbondingPeriod: 2 * time.Hour,
